@@ -38,3 +38,5 @@ void h_bodyextract(void) { vec_u8 *in, *out; int verbose; tmcg_openpgp_byte_t r 
 void h_pktdecode(void) { vec_u8 *in, *cur; int verbose; tmcg_openpgp_packet_ctx_t *out; vec_mpi *qual, *xq, *v_i; vec_str *capl; vec_vec_mpi *c_ik; notations_t *n; vec_vec_u8 *e, *r;
   tmcg_openpgp_byte_t t = PacketDecode(in, verbose, out, cur, qual, xq, capl, v_i, c_ik, n, e, r);
   __CPROVER_assert(t != 6, "REACHABILITY-CANARY (must fail): a public-key packet is decoded"); }
+void h_subparse(void) { vec_u8 *in; int verbose; tmcg_openpgp_packet_ctx_t *out; notations_t *n; vec_vec_u8 *e, *r; tmcg_openpgp_byte_t t = SubpacketParse(in, verbose, out, n, e, r);
+  __CPROVER_assert(t != 2, "REACHABILITY-CANARY (must fail): an area exists that is parsed completely"); }
